@@ -20,13 +20,14 @@ CLASS_PREFIXES = ('amgcl::solver::', 'amgcl::relaxation::', 'amgcl::precondition
                   'amgcl::deflated_solver', 'amgcl::amg', 'amgcl::mpi::')
 # documented exception: LGMRES keeps its augmentation vectors between solves unless always_reset
 DOCUMENTED_STATE = {('amgcl::solver::lgmres', 'outer_v'): 'sym:prm.always_reset'}
+# documented parameter domain: schur_pressure_correction::params::type is 1 or 2 ("type of the preconditioner" comment); on the path where it is neither, apply()
+# neither writes u / p nor solves anything, so the two vectors scattered into x are those of the previous call - outside the domain, exempted
+# path-wise (all the listed conditions false); inside the domain (type == 1, type == 2) the rule applies in full
+for _c in ('amgcl::preconditioner::schur_pressure_correction', 'amgcl::mpi::schur_pressure_correction'):
+    for _m in ('u', 'p'):
+        DOCUMENTED_STATE[(_c, _m)] = ('sym:prm.type == 1', 'sym:prm.type == 2')
 # element-level define-before-use that the per-array rule cannot see; confirmed by reading, one symbol each
 ELEMENTWISE_OK = {
-    ('amgcl::preconditioner::schur_pressure_correction', 'u'): 'read without a preceding kill only when prm.type is neither 1 nor 2, which is outside the documented domain '
-                                                                '(params comment: 1 or 2); on that path apply() never writes u or p either, so no value of an earlier call is observed',
-    ('amgcl::preconditioner::schur_pressure_correction', 'p'): 'same as u',
-    ('amgcl::mpi::schur_pressure_correction', 'u'): 'same as the serial class',
-    ('amgcl::mpi::schur_pressure_correction', 'p'): 'same as the serial class',
     ('amgcl::solver::skyline_lu', 'y'): 'forward substitution reads only y[j] with j = i - len + (k - ptr[i]) < i, written earlier in the same loop; '
                                          'backward substitution and the copy to x follow the complete forward sweep',
 }
@@ -90,8 +91,9 @@ def rule_B(ck, an, units, only=None, floor=50, entries=None, rule='B.work-arrays
         def visit(b, nid, a, facts, env):
             if a.kind_in(ai, env) in ('read', 'rw') and a.root not in facts:
                 flag = exempt_flag.get(a.root[1])
-                if flag and env.get(flag) == 'F':
-                    return   # documented: state is kept when the reset flag is off
+                flags = (flag,) if isinstance(flag, str) else (flag or ())
+                if flags and all(env.get(fl) == 'F' for fl in flags):
+                    return   # documented: state is kept when the reset flag is off / outside the documented parameter domain
                 bad.setdefault(a.root, a)
         ai.visit(visit)
         for r in sorted(written):
